@@ -122,7 +122,10 @@ def _gen_redirect(rng, i):
     scheme = rng.choice(["http", "https"]) if stype == "http" else rng.choice(["ws", "wss"])
     return {"family": "redirect", "kind": "redirect", "host": host, "raw_path": raw_path, "query": query, "root_path": root,
             "scope_type": stype, "scheme": scheme, "http_version": rng.choice(["1.1", "2"]), "cfg_host": rng.choice([None, None, "forced.example"]),
-            "ext": rng.random() < 0.85}
+            "ext": rng.random() < 0.85,
+            # earlier requests served by the same middleware instance (other virtual hosts, a forged Host): each request stands alone
+            "prior": [{"host": rng.choice(["first.example", "evil.example:81", "example.com"]), "scope_type": rng.choice(["http", "websocket"]),
+                       "secure": rng.random() < 0.3} for _ in range(rng.choice([0, 0, 1, 2]))]}
 
 
 # ---- execution ----------------------------------------------------------------------------------
@@ -387,7 +390,20 @@ def _redirect(case, tally):
     async def send(m):
         sent.append(m)
 
-    asyncio.run(mw(scope, None, send))
+    async def session():
+        for pr in case.get("prior", []):
+            st = pr["scope_type"]
+            psc = {"type": st, "scheme": ("https" if st == "http" else "wss") if pr["secure"] else ("http" if st == "http" else "ws"),
+                   "http_version": "1.1", "path": "/p", "raw_path": b"/prior", "query_string": b"", "root_path": "",
+                   "headers": [(b"host", pr["host"].encode())], "extensions": {"websocket.http.response": {}}}
+
+            async def sink(m):
+                pass
+            await mw(psc, None, sink)
+        called.clear()
+        await mw(scope, None, send)
+
+    asyncio.run(session())
     tally.clause("redirect")
     secure = case["scheme"] in ("https", "wss")
     if secure:
